@@ -78,7 +78,7 @@ size_t svalue_save_size (const svalue_t * v) {
 
         while ((c = *cp++))
           {
-            if (c == '\\' || c == '"') /* need to escape these characters */
+            if (c == '\\' || c == '"' || c == '\r') /* need to escape these characters */
               size++;
             size++;
           }
@@ -175,7 +175,9 @@ void save_svalue (svalue_t * v, char **buf) {
         *cp++ = '"';
         while ((c = *str++))
           {
-            if (c == '"' || c == '\\')
+            /* a bare '\r' stands for '\n' in a save file, so a real '\r' is escaped:
+             * the reader copies the character after a backslash unchanged */
+            if (c == '"' || c == '\\' || c == '\r')
               {
                 *cp++ = '\\';
                 *cp++ = c;
